@@ -210,8 +210,8 @@ class Prop(BaseProp):
             before = sorted(os.listdir(tmp))
             argv = build_argv(v, fpath)
             if case.get("subprocess"):
-                p = subprocess.run(["/venv/bin/python", "-m", "btc_hd_wallet"] + argv, cwd="/repo", capture_output=True, text=True,
-                                   env=dict(os.environ, PYTHONPATH="/repo"), timeout=600)
+                p = subprocess.run(["/venv/bin/python", "-m", "btc_hd_wallet"] + argv, cwd=os.environ.get("BHW_REPO", "/repo"), capture_output=True, text=True,
+                                   env=dict(os.environ, PYTHONPATH=os.environ.get("BHW_REPO", "/repo")), timeout=600)
                 code, out, err = p.returncode, p.stdout, p.stderr
             else:
                 code, out, err = run_main(argv)
